@@ -396,23 +396,43 @@ Proof.
       * eapply ev_seq_ok; [apply ev_not_ok; apply ev_sym_fail; exact Es| |reflexivity].
         eapply ev_conv; [apply ev_any_ok|]. f_equal. lia.
 Qed.
-Definition dot_stop (rest : list N) : Prop := match rest with [] => True | x :: _ => x = 46 \/ x = 91 \/ x = 32 end.
-Lemma ev_dbody_stop rest pos : dot_stop rest -> evG dbody rest pos PFail.
+(* what may follow a dot name: the end of the text, or a symbol character other than the backslash and the opening
+   parenthesis (a dot of the next step, a bracket, a blank, a closing parenthesis, an operator ...) *)
+Definition dot_stop (rest : list N) : Prop :=
+  match rest with [] => True | x :: _ => dot_sym x = true /\ x <> 92 /\ x <> 40 end.
+Lemma sym_not_ctrl x : dot_sym x = true -> in_ranges x ctrl_ranges = false.
+Proof.
+  unfold dot_sym, dot_ranges, ctrl_ranges. cbn [in_ranges]. intros H.
+  destruct (x <=? 31) eqn:E1.
+  - apply N.leb_le in E1. exfalso.
+    repeat (apply orb_true_iff in H; destruct H as [H|H]); try discriminate H;
+      apply andb_true_iff in H; destruct H as [Ha Hb]; apply N.leb_le in Ha; lia.
+  - destruct ((127 <=? x) && (x <=? 127)) eqn:E2.
+    + apply andb_true_iff in E2. destruct E2 as [Ea Eb]. apply N.leb_le in Ea. apply N.leb_le in Eb. exfalso.
+      repeat (apply orb_true_iff in H; destruct H as [H|H]); try discriminate H;
+        apply andb_true_iff in H; destruct H as [Ha Hb]; apply N.leb_le in Hb; lia.
+    + rewrite andb_false_r. reflexivity.
+Qed.
+(* the weaker condition under which the name characters stop: the follower is a symbol other than the backslash *)
+Definition sym_stop (rest : list N) : Prop := match rest with [] => True | x :: _ => dot_sym x = true /\ x <> 92 end.
+Lemma dot_sym_stop rest : dot_stop rest -> sym_stop rest.
+Proof. destruct rest as [|x r]; [trivial|]. cbn. tauto. Qed.
+Lemma ev_dbody_stop rest pos : sym_stop rest -> evG dbody rest pos PFail.
 Proof.
   unfold dbody. destruct rest as [|x r]; intros Hs.
   - apply ev_alt_r.
     + apply ev_seq_fail. apply (ev_lit_fail G [92]). reflexivity.
     + eapply ev_seq_fail2; [apply ev_not_ok; apply ev_cls_eof|].
       eapply ev_seq_fail2; [apply ev_not_ok; apply ev_sym_eof|]. apply ev_any_fail.
-  - cbn [dot_stop] in Hs. apply ev_alt_r.
-    + apply ev_seq_fail. apply (ev_lit_fail G [92]). apply strip1_no. destruct Hs as [-> | [-> | ->]]; discriminate.
-    + eapply ev_seq_fail2; [apply ev_not_ok; apply ev_cls_fail; destruct Hs as [-> | [-> | ->]]; reflexivity|].
-      apply ev_seq_fail. eapply ev_not_fail. apply ev_sym_ok. destruct Hs as [-> | [-> | ->]]; reflexivity.
+  - cbn [sym_stop] in Hs. destruct Hs as (Hsym & H92). apply ev_alt_r.
+    + apply ev_seq_fail. apply (ev_lit_fail G [92]). apply strip1_no. exact H92.
+    + eapply ev_seq_fail2; [apply ev_not_ok; apply ev_cls_fail; rewrite (sym_not_ctrl x Hsym); reflexivity|].
+      apply ev_seq_fail. eapply ev_not_fail. apply ev_sym_ok. exact Hsym.
 Qed.
 Lemma dot_unit_len c : (1 <= List.length (dot_unit c))%nat.
 Proof. unfold dot_unit. destruct (dot_sym c); cbn; lia. Qed.
 
-Lemma ev_dbody_star k rest pos : forallb dot_char k = true -> dot_stop rest ->
+Lemma ev_dbody_star k rest pos : forallb dot_char k = true -> sym_stop rest ->
   evG (PStar dbody) (esc_dot_cps k ++ rest) pos (POk rest (pos + List.length (esc_dot_cps k)) []).
 Proof.
   intros Hk Hs. revert pos Hk. induction k as [|c k IH]; intros pos Hk.
@@ -424,7 +444,7 @@ Proof.
     pose proof (ev_star_step G _ _ _ _ _ _ _ _ _ H1 ltac:(lia) (IH (pos + List.length (dot_unit c))%nat Hk)) as H2.
     eapply ev_conv; [exact H2|]. f_equal. lia.
 Qed.
-Lemma ev_dbody_plus c k rest pos : forallb dot_char (c :: k) = true -> dot_stop rest ->
+Lemma ev_dbody_plus c k rest pos : forallb dot_char (c :: k) = true -> sym_stop rest ->
   evG (PPlus dbody) (esc_dot_cps (c :: k) ++ rest) pos (POk rest (pos + List.length (esc_dot_cps (c :: k))) []).
 Proof.
   intros Hk Hs. cbn [forallb] in Hk. apply andb_true_iff in Hk. destruct Hk as [Hc Hk].
@@ -444,7 +464,10 @@ Proof.
 Qed.
 
 Lemma strip_stop rest : dot_stop rest -> strip_prefix [40; 41] rest = None.
-Proof. destruct rest as [|x r]; [reflexivity|]. cbn [dot_stop]. intros [-> | [-> | ->]]; reflexivity. Qed.
+Proof.
+  destruct rest as [|x r]; [reflexivity|]. cbn [dot_stop]. intros (_ & _ & H40). cbn [strip_prefix].
+  assert (E : (40 =? x) = false) by (apply N.eqb_neq; intros E; apply H40; symmetry; exact E). rewrite E. reflexivity.
+Qed.
 
 Lemma ev_rule13 c k rest pos : forallb dot_char (c :: k) = true -> dot_stop rest ->
   evG (PRef 13) (esc_dot_cps (c :: k) ++ rest) pos
@@ -454,7 +477,7 @@ Proof.
   destruct (dot_first c k) as (x & r & Hx & H42 & _).
   apply ev_alt_r.
   - rewrite Hx. cbn [app]. eapply ev_ref; [reflexivity|]. apply ev_seq_fail. apply (ev_lit_fail G [42]). apply strip1_no. exact H42.
-  - eapply ev_seq_ok; [apply ev_cap; apply ev_dbody_plus; [exact Hk|exact Hs]| |reflexivity].
+  - eapply ev_seq_ok; [apply ev_cap; apply ev_dbody_plus; [exact Hk|apply dot_sym_stop; exact Hs]| |reflexivity].
     eapply ev_seq_ok; [apply ev_not_ok; apply (ev_lit_fail G [40; 41]); apply strip_stop; exact Hs|apply ev_act|reflexivity].
 Qed.
 
